@@ -36,6 +36,18 @@ def build(u):
     table = list(u4.WORLD_CALLEES) + ['. ' + n for n in sorted(world_fns)] + sorted(world_fns)
     u.inline_new_helpers(table)
     u4.thread_all(u)
+    n16 = 0
+    for v in u.fns:
+        if v.item.body_range():
+            n16 += v.name_closure_wildcards()
+    if n16:
+        u.dropped.append('T16: %d closure head(s) `|_|` spelled `|kv_unused|`' % n16)
+    n17 = 0
+    for v in u.fns:
+        if v.item.body_range():
+            n17 += v.spell_byte_strings()
+    if n17:
+        u.dropped.append('T17: %d byte-string literal(s) spelled as array references' % n17)
     return u
 
 
